@@ -10,6 +10,8 @@ VERIF_BUDGET_S=$b VERIF_WATCHDOG_S=${VERIF_WATCHDOG_S:-30} ./verif check $id --t
 rc=${PIPESTATUS[0]}
 echo "rc=$rc"
 git -C /repo checkout -- .
+# never leave a binary built from the changed tree behind
+(cd /verif && ./verif build >/dev/null 2>&1)
 # restore the evidence / replays produced on the unchanged tree
 git -C /verif checkout -- evidence 2>/dev/null
 rm -f /verif/replays/$id-*.json
